@@ -5,7 +5,7 @@ import datetime as dt
 import re
 from fractions import Fraction
 
-from props.common import (I128_MAX, I128_MIN, T64, edge_ticks, outcome, rand_ticks, show, norm_model, render,
+from props.common import (I128_MAX, I128_MIN, T64, edge_ticks, structured_fractions, outcome, rand_ticks, show, norm_model, render,
                           translation_validation)
 
 PID = "C14"
@@ -148,6 +148,9 @@ def run(ctx):
     dts += [rng.randint(DT_MIN, DT_MAX) for _ in range(1500 if ctx.quick else 60000)]
     dts += [rng.randint(-(1 << 40), 1 << 40) * T64 + rng.choice([0, 1, T64 - 1, T64 - 2, T64 // 2, rng.randrange(T64)])
             for _ in range(500 if ctx.quick else 20000)]
+    sf = structured_fractions()
+    for w in (0, -1, 3_831_211_530, rng.randint(-(1 << 35), 1 << 37), DT_MIN // T64 + 1, DT_MAX // T64 - 1):
+        dts += [w * T64 + f for f in (sf if not ctx.quick or w in (0, 3_831_211_530) else sf[::5])]
     dts = [t for t in dts if DT_MIN <= t <= DT_MAX]
     for t in dts:
         check_datetime(ctx, t, bt)
